@@ -4,7 +4,7 @@ REAL_TABLES = ["fw/table FibStrategyTree", "fw/table FibStrategyHashTable", "fw/
 
 FW_COMPONENTS = {"real": ["fw/fw Thread.Run loop and pipelines", "fw/fw best-route and multicast strategies", "fw/table PitCsTree + CsLRU + DeadNonceList (own timers on the bubble clock)", "fw/table FIB (nametree or hashtable)", "fw/table NetworkRegion", "std/ndn/spec_2022 packet codec"], "stub": ["faces (recording dispatch.Face with scope/link type)", "peers (scripted by the scenario)", "link service (packets enter at the forwarding-thread queue)"]}
 PLAN_FW_FAULTS = "network faults are scripted by the scenario: lost Data (Interest expires), duplicated Data, Interests re-entering on another face with the same nonce (loop), tokens echoed on the wrong face or foreign; endpoint fault: face teardown; clock: zero advances, exact-deadline landings, jumps past every lifetime"
-FW_ASSUMPTIONS = ["single forwarding thread (thread id 0); multi-thread dispatch is exercised by facesim/mgmtsim", "64-bit name hashes and 32-bit PIT tokens do not collide within a run"]
+FW_ASSUMPTIONS = ["one forwarding thread under test (thread 0, or - in 30% of the runs - thread 1..7 of several, the others idle); multi-thread dispatch is exercised by facesim/mgmtsim", "64-bit name hashes and 32-bit PIT tokens do not collide within a run"]
 
 PLAN = {
     "C05": {
@@ -34,7 +34,7 @@ PLAN = {
         "nontrivial": ">=1 /localhost packet was offered while a non-local face existed",
         "fault_note": "network faults are scripted by the scenario: lost Data (Interest expires), duplicated Data, Interests re-entering on another face with the same nonce (loop), tokens echoed on the wrong face; endpoint fault: face teardown",
         "components": {"real": ["fw/fw Thread.Run loop and pipelines", "fw/fw best-route and multicast strategies", "fw/table PitCsTree + CsLRU + DeadNonceList (own timers on the bubble clock)", "fw/table FIB (nametree or hashtable)", "fw/table NetworkRegion", "std/ndn/spec_2022 packet codec", "fw/face MakeUnicastTCPTransport: scope classification of outgoing TCP faces from the remote address (40% of point-to-point faces take their forwarder-side scope from it)"], "stub": ["faces (recording dispatch.Face with link type; scope given by the scenario, or by the real TCP transport constructor)", "scope classification of accepted TCP, UDP, Unix and WebSocket transports (their constructors need real sockets)", "peers (scripted by the scenario)", "link service (packets enter at the forwarding-thread queue)"]},
-        "assumptions": ["single forwarding thread (thread id 0); multi-thread dispatch is exercised by facesim/mgmtsim", "which peers count as non-local: everything but loopback addresses (127.0.0.0/8, ::1)"],
+        "assumptions": ["one forwarding thread under test (thread 0, or - in 30% of the runs - thread 1..7 of several, the others idle); multi-thread dispatch is exercised by facesim/mgmtsim", "which peers count as non-local: everything but loopback addresses (127.0.0.0/8, ::1)"],
     },
     "C01": {
         "parts": [{"engine": "fwsim", "quick": 100000, "thorough": 5000000}],
